@@ -20,7 +20,10 @@ ASSUMPTIONS = ["cKDTree.query returns the k nearest points in Euclidean distance
 TRUSTED = ["scipy.spatial.cKDTree.query (contract)", "numpy mean/median/min/max", "xarray.Dataset.where"]
 
 REDS = {"mean": np.mean, "median": np.median, "min": np.min, "max": np.max}
-PROJS = {"affine": lambda p: (lambda e, n: (p[0] * e + p[1], p[2] * n + p[3])), "shear": lambda p: (lambda e, n: (e + p[0] * n, n - p[0] * e))}
+PROJS = {"affine": lambda p: (lambda e, n: (p[0] * e + p[1], p[2] * n + p[3])), "shear": lambda p: (lambda e, n: (e + p[0] * n, n - p[0] * e)),
+         # a LOCAL projection, centred on the points it is handed (a local tangent plane about the survey): what it returns for a point depends on
+         # the set it came with, so the data and the queries have to be projected each on their own, as the property says
+         "centred": lambda p: (lambda e, n: (p[0] * (np.asarray(e, dtype=float) - np.median(e)), p[1] * (np.asarray(n, dtype=float) - np.median(n))))}
 
 
 def cloud(rng, n, lattice=32):
@@ -75,7 +78,13 @@ def corpus():
           mk_md(es, ns, 1, [4], "corpus-md"), mk_md(es, ns, 3, [2, 2], "corpus-md-2d"),
           mk_mask(es, ns, 5.0, [3.0, 0.0, 6.0, 20.0], [8.0, -5.0, 8.0, 20.0], [4], None, None, "corpus-boundary-3-4-5"),
           mk_mask(es, ns, 5.0, None, None, None, None, ([0.0, 3.0, 6.5], [-5.0, 0.0]), "corpus-grid"),
-          mk_mask(es, ns, 0.0, list(es), list(ns), [4], None, None, "corpus-maxdist-0")]
+          mk_mask(es, ns, 0.0, list(es), list(ns), [4], None, None, "corpus-maxdist-0"),
+          mk_mask(es, ns, 5.0, [3.0, 0.0, 6.0, 20.0, 14.0], [8.0, -5.0, 8.0, 20.0, 3.5], [5], ["centred", [1.0, 0.5]], None, "mask-local-projection"),
+          mk_mask(es, ns, 4.0, None, None, None, ["centred", [2.0, 1.0]], ([0.0, 3.0, 6.5, 30.0], [-5.0, 0.0, 2.0]), "mask-local-projection"),
+          # one station, UTM metres kept as int32 (as read from a table): coordinate differences beyond 46341 m, whose squares do not fit the type
+          mk_mask([500000.0], [4100000.0], 90000.0, [430000.0, 560000.0, 500000.0, 579000.0, 410000.0], [4100000.0, 4160000.0, 4010500.0, 4143000.0, 4100000.0],
+                  [5], None, None, "mask-utm-int"),
+          mk_mask([500000.0, 640000.0], [4100000.0, 4100000.0], 90000.0, [430000.0, 560000.0, 700000.0], [4100000.0, 4160000.0, 4030000.0], [3], None, None, "mask-utm-int")]
     return cs
 
 
@@ -114,8 +123,17 @@ def generate(rng, tier):
         else:
             proj = None
             if rng.random() < 0.3:
-                proj = rng.choice([["affine", [2.0, 1.0, -0.5, 3.0]], ["affine", [0.25, 0.0, 4.0, -1.0]], ["shear", [0.5]]])
+                proj = rng.choice([["affine", [2.0, 1.0, -0.5, 3.0]], ["affine", [0.25, 0.0, 4.0, -1.0]], ["shear", [0.5]], ["centred", [1.0, 0.5]], ["centred", [2.0, 2.0]]])
             maxdist = rng.choice([rng.randint(0, 64) / 8.0, 5.0, 1.25])
+            if rng.random() < 0.12:
+                # integer metres (int32) at UTM magnitudes, few stations (often one), far-away queries
+                m = rng.choice([1, 1, 2, 3])
+                ue = [float(rng.randint(300000, 700000)) for _ in range(m)]
+                un = [float(rng.randint(4000000, 4400000)) for _ in range(m)]
+                uq = [float(rng.randint(250000, 750000)) for _ in range(nq)]
+                vq = [float(rng.randint(3950000, 4450000)) for _ in range(nq)]
+                cs.append(mk_mask(ue, un, float(rng.randint(40000, 250000)), uq, vq, shape2d, None, None, "mask-utm-int"))
+                continue
             if rng.random() < 0.4:
                 ge = sorted(set(rng.randint(-40, 40) / 4.0 for _ in range(rng.randint(1, 5))))
                 gn = sorted(set(rng.randint(-40, 40) / 4.0 for _ in range(rng.randint(1, 5))))
@@ -178,7 +196,11 @@ def impl(case):
             es, ns, maxdist, qe, qn, shape2d, proj, grid = a
             f = None if proj is None else PROJS[proj[0]](proj[1])
             dc = (np.array(es), np.array(ns))
-            arr = vd.distance_mask(dc, maxdist, coordinates=(C.mkarr(qe, shape2d, "qe:" + case["op"]), C.mkarr(qn, shape2d, "qn:" + case["op"])), projection=f)
+            qc = (C.mkarr(qe, shape2d, "qe:" + case["op"]), C.mkarr(qn, shape2d, "qn:" + case["op"]))
+            if case["kind"] == "mask-utm-int":
+                dc = tuple(c.astype("int32") for c in dc)
+                qc = tuple(c.astype("int32") for c in qc)
+            arr = vd.distance_mask(dc, maxdist, coordinates=qc, projection=f)
             if list(arr.shape) != list(shape2d) or arr.dtype != bool:
                 raise RuntimeError("wrong output shape/dtype")
             if grid is not None:
